@@ -298,6 +298,35 @@ def run_case(case):
             if left:
                 s.fail('ike-sa-survives-dead-peer', f'{t:.0f}s after the peer became unreachable endpoint {side} still holds '
                                                     f'IKE_SAs in states {left}')
+    elif end == 'peer_restart':
+        # b loses everything (restart) and builds a fresh IKE_SA with a; traffic keeps flowing on the fresh one.  The IKE_SA a
+        # still holds from before (and its kernel SAs) must be gone within DPD interval + retransmission budget
+        # (an IKE_SA still in its initial exchanges may legitimately complete with the restarted peer: not an orphan)
+        orphans = [q for q in s.a.sas if q.state >= State.ESTABLISHED]
+        orphan_sad = set(s.a.kernel.sad)
+        s.w.inflight.clear()
+        s.apply(['crash', 'b'])
+        s.apply(['restart', 'b'])
+        s.apply(['acquire', 'b', 0, 7])
+        s.flush()
+        horizon = cfg['dpd'] + budget() + 6
+        t = 0.0
+        dt = case.get('end_dt', 1.0)
+        k = 0
+        while t < horizon:
+            s.tick(dt, ['tick', dt])
+            s.flush()
+            t += dt
+            k += 1
+            if k % 4 == 0:
+                s.apply(['acquire', 'b', 0, 10 + k])        # fresh traffic on the new IKE_SA
+                s.flush()
+        left = [q for q in s.a.sas if any(q is o for o in orphans)]
+        if left:
+            s.fail('orphaned-ike-sa-survives', f'{t:.0f}s after the peer restarted, the IKE_SA the survivor held from before is still '
+                                               f'in its table (state {left[0].state.name}); DPD interval {cfg["dpd"]}s')
+        if orphan_sad & set(s.a.kernel.sad):
+            s.fail('orphaned-kernel-sas-survive', f'{t:.0f}s after the peer restarted, kernel SAs of the old IKE_SA are still installed')
     else:
         s.drain(settle=False)
     info.update(lost=s.counters.get('op:drop', 0), resends=tm.resends, dpd=tm.dpd_probes, rekeys=tm.rekeys,
@@ -315,7 +344,7 @@ def body(case, stats):
         kl.append('cookie')
     if case['cfg'].get('ike_dh_mismatch'):
         kl.append('invalid-ke')
-    nt = info['resends'] > 0 or info['end'] in ('crash_a', 'crash_b', 'partition') or info['dpd'] or info['rekeys']
+    nt = info['resends'] > 0 or info['end'] in ('crash_a', 'crash_b', 'partition', 'peer_restart') or info['dpd'] or info['rekeys']
     stats.case(common.jhash([case['cfg'], info['end'], [o[:2] for o in case['ops']][:30]]), nontrivial=bool(nt), klass=kl,
                sample={'cfg': case['cfg'], 'ops': case['ops'][:14], 'end': info['end'],
                        'seen': {k: info[k] for k in ('resends', 'dpd', 'rekeys', 'hard', 'giveups')}})
@@ -353,7 +382,7 @@ def ops_strategy():
 def cases(draw):
     ops = [['acquire', draw(st.sampled_from(['a', 'b'])), 0, 1]] + draw(ops_strategy())
     return {'cfg': draw(cfg_params), 'ops': ops,
-            'end': draw(st.sampled_from(['drain', 'drain', 'crash_a', 'crash_b', 'partition'])),
+            'end': draw(st.sampled_from(['drain', 'drain', 'crash_a', 'crash_b', 'partition', 'peer_restart'])),
             'noise': draw(st.sampled_from([None, None, 'clear_init', 'clear_info', 'wrong_flag', 'bad_checksum'])),
             'end_dt': draw(st.sampled_from([0.5, 1.0, 1.0, 3.0]))}
 
@@ -416,6 +445,11 @@ def directed_cases():
                 ops = est + [own] + [['deliver', 0]] * 4 + [['rekey_ike', 'b', 0], ['deliver', 0], ['deliver', 0]]
                 ops += ([['drop', 0]] if lost else []) + [['tick', dt]] * int(26 / dt)
                 out.append({'cfg': {'dpd': 30, 'lifetime': 3600}, 'ops': ops, 'end': 'drain', 'end_dt': 1.0, 'directed': 'delayed-delete'})
+    for dpd in (5, 12):
+        for dt in (0.5, 1.0, 3.0):
+            for pre in ([], [['acquire', 'b', 0, 2], ['deliver', 0], ['deliver', 0]], [['rekey_ike', 'a', 0]] + [['deliver', 0]] * 4):
+                out.append({'cfg': {'dpd': dpd, 'lifetime': 3600}, 'ops': [['acquire', 'a', 0, 1]] + [['deliver', 0]] * 4 + pre,
+                            'end': 'peer_restart', 'end_dt': dt, 'directed': 'peer-restart'})
     # lifetimes: idle IKE_SA through rekey and, with every rekey answered TEMPORARY_FAILURE, through the hard deadline
     idle = [['acquire', 'a', 0, 1]] + [['deliver', 0]] * 4
     for dt in (0.5, 1.0, 2.5, 4.0, 4.0):
